@@ -259,11 +259,11 @@ class C03(PropertyCheck):
         jobs, terms = [], []
         for i in range(n):
             decls, obs = gen_nested_program(rng)
-            jobs.append({'id': f'n{i}', 'src': '\n'.join(d.xr() for d in decls), 'calls': obs})
+            jobs.append({'id': f'n{i}', 'src': '\n'.join(d.xr() for d in decls), 'calls': obs, 'cell_log': True})
             terms.append(model_term(decls, obs, fuel=6000))
         extra = [gen_ladder(rng) for _ in range(60 if tier == 'quick' else 600)] + special_templates()
         for i, (decls, obs) in enumerate(extra):
-            jobs.append({'id': f'l{i}', 'src': '\n'.join(d.xr() for d in decls), 'calls': obs})
+            jobs.append({'id': f'l{i}', 'src': '\n'.join(d.xr() for d in decls), 'calls': obs, 'cell_log': True})
             terms.append(model_term(decls, obs, fuel=6000))
         # identifier spellings: every name of the pool bound to a different value in one scope
         names = [x for x in NAMEPOOL if x not in ('_',)] + ['item1000', 'item0001', 'ITEM1', 'item99999999999999999999999', 'item1item1']
@@ -324,6 +324,49 @@ class C03(PropertyCheck):
                                        'case': {'src': fsrc}, 'impl': (comp if comp != 'ok' else str(r.get('calls')))[:300], 'model': cls or val})
                 else:
                     distinct.add(fsrc)
+        # ---- the model of into_static_ud (coq/Lang/Cells.v fin) against the compiler's own record (hook verif_cell_log) of every scope
+        # it closed while compiling the nested programs: cells, size of the parent, resulting specs, requests handed to the parent
+        def coq_cells(txt):
+            out = []
+            for c in txt.split():
+                if c in ('V', 'R'):
+                    out.append('CVar')
+                else:
+                    d_, i_ = c[1:].split('.')
+                    out.append(f'CCap {d_} {i_}')
+            return '[' + '; '.join(out) + ']'
+        cell_terms, cell_lines = [], []
+        prof0 = ctx['binaries'][0][0]
+        seen_lines = set()
+        deep = 0
+        for job in jobs:
+            r = res[prof0].get(job['id'])
+            for line in (r or {}).get('cell_log') or []:
+                if line in seen_lines:
+                    continue
+                seen_lines.add(line)
+                child, plen, specs, reqs = line.split('|')
+                if plen == '-':
+                    continue
+                if any(c.startswith('C') and int(c[1:].split('.')[0]) > 1 for c in child.split()):
+                    deep += 1
+                cell_terms.append(f'check_fin {coq_cells(child)} {plen} {coq_cells(specs)} {coq_cells(reqs)}')
+                cell_lines.append((line, job['src']))
+        cell_model = core.coq_eval(cell_terms, 'From Coq Require Import List String.\nFrom Xr Require Import Lang.Cells Lang.CellsInst.\nImport ListNotations.\n',
+                                   os.path.join(workdir, 'coq_cells'), name='cells', shard_size=150)
+        cells_ok = 0
+        for (line, src_), m in zip(cell_lines, cell_model):
+            n_eval += 1
+            if m is None:
+                raise core.CheckError('cell model evaluation failed for ' + line)
+            if m != 'ok':
+                violations.append({'what': f'MODEL: the compiler closed a scope differently from the model of into_static_ud ({m}): cells|parent size|specs|requests = {line}',
+                                   'case': {'src': src_, 'cell_log_line': line}, 'impl': line, 'model': m, 'broken_correspondence': 'Lang/Cells.v fin = into_static_ud'})
+            else:
+                cells_ok += 1
+        if not cell_terms:
+            violations.append({'what': 'MODEL: the cell-log hook returned nothing (hook missing or harness built without --cfg xray_verif)', 'case': {},
+                               'broken_correspondence': 'Lang/Cells.v fin = into_static_ud'})
         fwd_out = {}
         for (jid, fsrc, fterm), m in zip(fwd_terms, fwd_model):
             if m is None:
@@ -347,7 +390,8 @@ class C03(PropertyCheck):
                 else:
                     distinct.add(fsrc)
         ctx['coverage'] = {'evaluations': n_eval, 'distinct_nontrivial': len(distinct), 'samples': samples, 'programs': n, 'skipped': skipped,
-                           'forward_programs': len(fwd_terms), 'forward_outcomes': fwd_out}
+                           'forward_programs': len(fwd_terms), 'forward_outcomes': fwd_out,
+                           'closed_scopes_compared_with_cell_model': cells_ok, 'closed_scopes_with_captures_beyond_parent': deep}
         return violations
 
 
